@@ -439,7 +439,7 @@ func (w *mworld) apply(o op, opIdx int) {
 	case kCommit:
 		writes := false
 		for a := 0; a < nAddr; a++ {
-			writes = writes || in.jd[a] || in.od[a]
+			writes = writes || in.jd[a] || in.od[a] || in.reset[a]
 			ac := &in.acc[a]
 			if ac.exists && !ac.suicided && (in.jd[a] || in.od[a]) && ac.stor != [nKey]int64{} {
 				w.diskStor[a] = true
